@@ -153,10 +153,16 @@ class OperatorTable(Expression):
                 with out.IF(Code(f'_top_prec < _prec or (_top_prec == _prec and _top_assoc == 1)')):
                     pop_operator()
                 with out.ELIF(Code(f'_top_prec == _prec and _top_assoc == 3')):
+                    # Non-associative operators must not be chained: the
+                    # expression ends in front of this operator.
                     out += (POS << outer_checkpoint)
+                    out += Code('_prec') << None
                     out += BREAK
                 with out.ELSE():
                     out += BREAK
+
+            with out.IF(Code('_prec is None')):
+                out += BREAK
 
             out += operator_marker << Code(f'len({operator_stack})')
             out += operator_stack.append(RESULT)
